@@ -138,8 +138,18 @@ func c13(c *ctx) {
 		}
 		ins := append(append([]string{}, s.samples...), hostileInputs(r, s.samples, nin, s.name != "java" && s.name != "c", tierN(c, 40000, 200000))...)
 		ins = append(ins, derivedInputs(r, s.grammar(c.env.Repo), s.samples, nin/2)...)
+		sg := s.grammar(c.env.Repo)
 		for k, in := range ins {
-			reqs = append(reqs, corpus.Req{Pkg: j.Pkg, In: []byte(in), Memo: k%5 != 0, Size: (k % 3) * 8})
+			memo := k%5 != 0
+			if !memo && sg != nil {
+				// without memoisation nested constructs of the C/Java grammars need exponential time: only inputs the
+				// reference (which does not memoise either) evaluates within its step limit are run that way
+				it := ref.New(sg, in)
+				it.Limit = 300000
+				it.Parse(sg.Rules[0].Name)
+				memo = it.Over
+			}
+			reqs = append(reqs, corpus.Req{Pkg: j.Pkg, In: []byte(in), Memo: memo, Size: (k % 3) * 8})
 			rks = append(rks, rk{s, in})
 		}
 	}
@@ -151,6 +161,10 @@ func c13(c *ctx) {
 	}
 	if err != nil {
 		die("shipped run: %v", err)
+	}
+	shipG := map[string]*gram.Grammar{}
+	for _, s := range ships {
+		shipG[s.name] = s.grammar(c.env.Repo)
 	}
 	for i, rr := range results {
 		if rr.Lost {
@@ -174,6 +188,10 @@ func c13(c *ctx) {
 		runes := []rune(in)
 		if rr.NRunes != len(runes) {
 			c.run.Violate("runes:"+id, fmt.Sprintf("%s: the parser sees %d runes, []rune(input) has %d", s.name, rr.NRunes, len(runes)), w())
+			continue
+		}
+		if why := refJudge(shipG[s.name], in, &rr); why != "" {
+			c.run.Violate("shipped-ref:"+id, s.name+": "+why, w())
 			continue
 		}
 		if rr.OK {
@@ -208,7 +226,7 @@ func c13(c *ctx) {
 	c.run.Sample(map[string]any{"grammar": "grammars/c/c.peg", "input_hex": hex.EncodeToString([]byte("int a(){return (in\xc0\xaf)0;}")), "checked": "no panic; tokens within rune bounds, laminar post-order; SprintSyntaxTree equals the tree rebuilt from tokens by slicing []rune(input)"}, 3)
 	requireCov(c, "generated_grammar_executions", "shipped_grammar_executions", "shipped_accepted", "shipped_rejected", "long_inputs")
 	c.run.Rule = "cases: (1) generated grammars (shared-prefix, all-operator with '.' and negated classes, choice-heavy; bounds-assertion predicates planted; alphabet with NUL, U+FFFD, non-BMP, U+10FFFF) on hostile buffers: empty, NUL, every class of invalid UTF-8 (lone continuation, truncated sequence, overlong, surrogate, > U+10FFFF, 0xFF), BOM, U+2028, non-BMP, U+10FFFF, fragments inserted/substituted/truncated into derivations, inputs of 4*10^4 to 10^5 runes (derivation nesting bounded at 200 rule levels); memo on/off and -inline -switch; in the thorough tier the runner is built with -race (checkptr on). Oracle: no panic / fatal error; in-parser bounds assertions; rune count; verdict and tokens equal the reference interpreter over []rune(input). " +
-		"(2) the shipped peg, calculator, calculatorast, C, Java, fexl and long grammars, generated with -inline -switch from the tree under test, on their sample inputs and hostile variants (plus inputs of 4*10^4 bytes (quick) / 2*10^5 bytes (thorough) and 200-deep nesting): no panic; every offset within the rune sequence; laminar post-order; SprintSyntaxTree equals the tree rebuilt from the tokens by slicing []rune(input); error token within the input. " +
+		"(2) the shipped peg, calculator, calculatorast, C, Java, fexl and long grammars, generated with -inline -switch from the tree under test, on their sample inputs, hostile variants, one steered derivation through every rule of the grammar and fragments of arbitrary rules spliced into the samples; verdict and tokens are also compared with the reference interpreter run on the grammar read back from the .peg file; (plus inputs of 4*10^4 bytes (quick) / 2*10^5 bytes (thorough) and 200-deep nesting): no panic; every offset within the rune sequence; laminar post-order; SprintSyntaxTree equals the tree rebuilt from the tokens by slicing []rune(input); error token within the input. " +
 		"distinct_nontrivial = distinct (grammar, input) whose input contains NUL or invalid UTF-8 bytes, U+10FFFF, or is longer than 30 000 bytes."
 	c.run.Assume("nesting depth bounded at 200 levels (deeper recursion is a stack-size matter, DESIGN section 8); inputs up to 2*10^5 bytes")
 }
